@@ -45,6 +45,37 @@ func checkC37(c *Check) {
 		merge := strings.Contains(t, "assign $.ackFrom = min($.ackFrom, val)\nassign $.ackTo = max($.ackTo, val2)\nreturn \n")
 		unlink := strings.Contains(t, "assign val = min($.ackFrom, val)\nif !($ != nil)\nassign item.firstRange = $.next\nelse\nassign $.next = $.next\nassign $ = $.next\n")
 		absorb := strings.Contains(t, "loop for over= count=false cond=and((item.firstRange != nil),(item.firstRange.ackFrom <= item.ackPrefix))\nassign item.ackPrefix = max(item.ackPrefix, (item.firstRange.ackTo + #1))\nassign item.firstRange = item.firstRange.next\n")
+		// every advance of the prefix is followed, in the same block, by the loop that absorbs *all* leading ranges the
+		// new prefix reaches (one range absorbed by an `if` leaves later ranges at or below the prefix)
+		const absorbCond = "and((item.firstRange != nil),(item.firstRange.ackFrom <= item.ackPrefix))"
+		advances, unabsorbed := 0, 0
+		var blocks func(b Block, inAbsorb bool)
+		blocks = func(b Block, inAbsorb bool) {
+			for i, n := range b {
+				switch n := n.(type) {
+				case *AssignN:
+					if len(n.LHS) == 1 && n.LHS[0] == "item.ackPrefix" && !inAbsorb {
+						advances++
+						found := false
+						for _, later := range b[i+1:] {
+							if lp, ok := later.(*LoopN); ok && lp.Cond != nil && lp.Cond.String() == absorbCond {
+								found = true
+							}
+						}
+						if !found {
+							unabsorbed++
+						}
+					}
+				case *IfN:
+					blocks(n.Then, inAbsorb)
+					blocks(n.Else, inAbsorb)
+				case *LoopN:
+					blocks(n.Body, inAbsorb || n.Cond != nil && n.Cond.String() == absorbCond)
+				}
+			}
+		}
+		blocks(ir.Body, false)
+		c.Ob("acks/prefix-advance-absorbs-all-reached-ranges", "AcksToSend.AddAckRange", advances > 0 && unabsorbed == 0, r.pos(ir.Info.Decl.Pos()), fmt.Sprintf("%d statements advance the prefix outside the absorbing loop; %d of them are not followed by `for firstRange != nil && firstRange.ackFrom <= ackPrefix { … }`", advances, unabsorbed))
 		c.Ob("acks/range-list-linking", "AcksToSend.AddAckRange", insert && merge && unlink && absorb, r.pos(ir.Info.Decl.Pos()), fmt.Sprintf("new node linked to successor and predecessor/firstRange: %v; in-place merge by min/max of own bounds: %v; absorbed node unlinked and its lower bound carried: %v; prefix absorbs leading ranges: %v", insert, merge, unlink, absorb))
 	}
 }
